@@ -14,6 +14,8 @@ squared distances ints in units of 1/4096.  See harness/cont_common.py for the p
     iadd a dx…   (agent.position += d) | poke a j x   (p = agent.position; p[j] = x)
     raw i x…     (space.agent_positions[i] = x: a user write through the public view)
     compat a x…  (agent.pos = x: the solara-compatibility setter, which ignores the value)
+    hold k       (v_k = space.agent_positions: the user keeps a reference; answer `ok len=n`)
+    hread k      (the rows v_k shows now) | hraw k i x…  (v_k[i] = x)
     radius x… r | knn x… k | nir a r | nn a k
     dists x… [: a b …] | diffs x… [: a b …] | inb x… | correct x…
 -/
@@ -63,7 +65,7 @@ def fmtKnn (l : List (Int × Option Aid)) : String :=
 inductive St where
   | none
   | leg (s : LSpace)
-  | exp (s : ESpace) (nd : Nat)
+  | exp (h : HSpace) (nd : Nat) (slots : List (Nat × Held))
 
 def splitColon (ws : List String) : List String × Option (List String) :=
   match ws.span (· ≠ ":") with
@@ -266,14 +268,32 @@ def stepLine (st : St) (ws : List String) : St × String :=
     match t.toNat?, cap.toNat?, (ints rest).bind pairs with
     | some t, some cap, some dims =>
       if style ∈ ["a", "l"] ∧ t ≤ 1 ∧ 1 ≤ dims.length then
-        (.exp (einit { dims, torus := t == 1 } cap) dims.length, "ok")
+        (.exp (hinit { dims, torus := t == 1 } cap) dims.length [], "ok")
       else (st, "bad-op")
     | _, _, _ => (st, "bad-op")
   | _ =>
     match st with
     | .none => (st, "bad-op")
     | .leg s => let (s', o) := stepLeg s ws; (.leg s', o)
-    | .exp s nd => let (s', o) := stepExp s nd ws; (.exp s' nd, o)
+    | .exp h nd slots =>
+      match ws with
+      | ["hold", k] =>
+        match k.toNat? with
+        | some k => let v := holdView h.sp; (.exp h nd ((k, v) :: slots.filter (·.1 ≠ k)), s!"ok len={v.len}")
+        | none => (st, "bad-op")
+      | ["hread", k] =>
+        match k.toNat?.bind (fun k => slots.lookup k) with
+        | some v => (st, "ok rows=" ++ ";".intercalate ((h.read v).map fmtPos))
+        | none => (st, "bad-op")
+      | "hraw" :: k :: i :: xs =>
+        match k.toNat?.bind (fun k => slots.lookup k), i.toNat?, ints xs with
+        | some v, some i, some p =>
+          if p.length ≠ nd then (st, "bad-op") else
+          match h.write v i p with
+          | .ok h' => (.exp h' nd slots, "ok")
+          | .error e => (st, fmtErr e)
+        | _, _, _ => (st, "bad-op")
+      | _ => let (s', o) := stepExp h.sp nd ws; (.exp (h.advance s') nd slots, o)
 
 partial def loop (h : IO.FS.Stream) (out : IO.FS.Stream) (st : St) : IO Unit := do
   let line ← h.getLine
